@@ -98,12 +98,15 @@ theorem complete_only_by_jobend_or_mrp {s : State} {e : Ev} {o : Obj}
 
 /-- `done_stable`: once every fork of a node is complete/disabled it stays so
 under every event of normal operation (nothing un-completes a fork; forks are
-only added to unfinished nodes).  Holds in the loading phase too except for the
-`fork` event itself. -/
+only added to unfinished nodes).  The only exception is the `fork` event while
+the graph is (re)built in the loading phase: initially nodes have no forks at
+all, and at a restart `RestoreForks` can give a Disabled mapped call whose
+placeholder fork was disabled before its forks were known fresh forks (observed
+on real histories; recorded in the ghost flag `State.reopened`). -/
 theorem done_stable {g : List NodeInfo} {s : State} {e : Ev} {p : Nat} (hr : Reach g s)
-    (hen : enabled s e = true) (hc : s.phase = .normal ∨ ∀ f, e ≠ .fork p f)
+    (hen : enabled s e = true) (hc : s.phase = .loading → ∀ f, e ≠ .fork p f)
     (hd : nodeDone s p = true) : nodeDone (apply s e) p = true :=
-  Martian.Sched.done_stable (reach_objsInv hr) hen hc hd
+  Martian.Sched.done_stable (reach_objsInv hr) (reach_full hr) hen hc hd
 
 /-! ### non-vacuity -/
 
